@@ -822,6 +822,44 @@ theorem descWF_spec {d : Str} (h : descWF (some d) = true) :
   simp only [Bool.and_eq_true, Bool.not_eq_true', List.isEmpty_eq_false_iff, List.all_eq_true, bne_iff_ne] at h
   exact ⟨h.1.1, h.1.2, fun c hc => ⟨(h.2 c hc).1.1.1, (h.2 c hc).1.1.2, (h.2 c hc).1.2, (h.2 c hc).2⟩⟩
 
+@[simp] theorem readDesc_nil : readDesc [] = none := rfl
+@[simp] theorem normDesc_none : normDesc none = none := rfl
+@[simp] theorem normDesc_some (d : Str) : normDesc (some d) = readDesc d := rfl
+
+theorem readDesc_of_trimmed {d : Str} (hne : d ≠ []) (ht : trimmed d = true) : readDesc d = some d := by
+  unfold readDesc
+  rw [strip_trimmed ht]
+  simp [hne]
+
+theorem descNormal_spec {desc : Option Str} (h : descNormal desc = true) :
+    ∀ d, desc = some d → d ≠ [] ∧ trimmed d = true := by
+  intro d hd
+  subst hd
+  simpa [descNormal] using h
+
+/-- `normDesc` is the identity on absent and on non-empty trimmed descriptions -/
+theorem normDesc_of_normal (desc : Option Str) (h : descNormal desc = true) : normDesc desc = desc := by
+  cases desc with
+  | none => rfl
+  | some d =>
+    obtain ⟨hne, ht⟩ := descNormal_spec h d rfl
+    simp [readDesc_of_trimmed hne ht]
+
+/-- a `descWF` description (non-empty) that is trimmed is a normal one -/
+theorem descNormal_of (desc : Option Str) (hd : descWF desc = true) (ht : descTrimmed desc = true) :
+    descNormal desc = true := by
+  cases desc with
+  | none => rfl
+  | some d =>
+    have hne := (descWF_spec hd).1
+    have ht' : trimmed d = true := by simpa [descTrimmed] using ht
+    simp [descNormal, hne, ht']
+
+theorem descTrimmed_of_normal (desc : Option Str) (h : descNormal desc = true) : descTrimmed desc = true := by
+  cases desc with
+  | none => rfl
+  | some d => exact (descNormal_spec h d rfl).2
+
 theorem nameWF_spec {n : Str} (h : nameWF n = true) :
     n ≠ [] ∧ trimmed n = true ∧ ∀ c ∈ n, lineDelim c = false ∧ c ≠ '\'' := by
   unfold nameWF at h
@@ -833,7 +871,7 @@ theorem sections_read (P name : Str) (as : Attrs) (desc : Option Str)
     (hv : (as.all fun kv => kv.2.all fun v => v.all (!lineDelim ·)) = true)
     (hd : descWF desc = true)
     (hname : getTagName (P ++ extras (formatAttr as) desc) = some (name, P.length)) :
-    readEntry (P ++ extras (formatAttr as) desc) = .ok (name, as, desc.map strip) := by
+    readEntry (P ++ extras (formatAttr as) desc) = .ok (name, as, normDesc desc) := by
   have hac := formatAttr_chars as has hv
   have hpa : parseAttr (formatAttr as) = .ok as := parseAttr_formatAttr as has
   have hPo : ∀ (x : Char), (x = '{' ∨ x = '}' ∨ x = '[' ∨ x = ']') → ∀ c ∈ P, c ≠ x := by
@@ -844,7 +882,7 @@ theorem sections_read (P name : Str) (as : Attrs) (desc : Option Str)
     intro x hx c hc e
     have := lineDelim_spec (hac c hc)
     rcases hx with rfl | rfl | rfl | rfl <;> simp_all
-  unfold readEntry
+  unfold readEntry readEntryWith
   rw [hname]
   cases desc with
   | none =>
@@ -1049,7 +1087,7 @@ theorem row_read (pre u Q S short : Str) (as : Attrs) (desc : Option Str)
     (hd : descWF desc = true)
     (he : hasSub extendHere (pre ++ (u ++ (Q ++ S ++ extras (formatAttr as) desc))) = false)
     (hz : hasSub zwEntity (pre ++ (u ++ (Q ++ S ++ extras (formatAttr as) desc))) = false) :
-    readEntry (pre ++ (u ++ (Q ++ S ++ extras (formatAttr as) desc))) = .ok (short, as, desc.map strip) := by
+    readEntry (pre ++ (u ++ (Q ++ S ++ extras (formatAttr as) desc))) = .ok (short, as, normDesc desc) := by
   have htm : tailMatch (Q ++ S ++ extras (formatAttr as) desc) = some (Q.length + S.length) := by
     by_cases hex : extras (formatAttr as) desc = []
     · rw [hex]; simpa using tailMatch_end Q S hQ (hS.1 hex)
@@ -1167,7 +1205,7 @@ theorem line_roundtrip_full (l : Nat) (short : Str) (as : Attrs) (desc : Option 
     (h : lineWF l short as desc = true) :
     cleanLine (tagLine l short (extras (formatAttr as) desc)) =
         .ok (some (rowBody l short (extras (formatAttr as) desc))) ∧
-      readEntry (rowBody l short (extras (formatAttr as) desc)) = .ok (short, as, desc.map strip) ∧
+      readEntry (rowBody l short (extras (formatAttr as) desc)) = .ok (short, as, normDesc desc) ∧
       quote3.isPrefixOf (rowBody l short (extras (formatAttr as) desc)) = (l == 0) ∧
       (0 < l → tagLevel (rowBody l short (extras (formatAttr as) desc)) = some l) := by
   obtain ⟨hn, has, hv, hd, he, hz⟩ := lineWF_spec h
@@ -1191,7 +1229,7 @@ theorem line_roundtrip_full (l : Nat) (short : Str) (as : Attrs) (desc : Option 
           (extras (formatAttr as) desc ≠ [] → S = [' '])) →
         hasSub extendHere (quote3 ++ (short ++ (quote3 ++ S ++ extras (formatAttr as) desc))) = false →
         hasSub zwEntity (quote3 ++ (short ++ (quote3 ++ S ++ extras (formatAttr as) desc))) = false →
-        readEntry (quote3 ++ (short ++ (quote3 ++ S ++ extras (formatAttr as) desc))) = .ok (short, as, desc.map strip) := by
+        readEntry (quote3 ++ (short ++ (quote3 ++ S ++ extras (formatAttr as) desc))) = .ok (short, as, normDesc desc) := by
       intro S hS he' hz'
       apply row_read quote3 short quote3 S short as desc _ f1 f2 f3 f4 hsne (Or.inr rfl) hS _ f5 has hv hd he' hz'
       · intro t k hs
@@ -1236,7 +1274,7 @@ theorem line_roundtrip_full (l : Nat) (short : Str) (as : Attrs) (desc : Option 
         hasSub extendHere (stars (n + 1) ++ ((pad ++ short) ++ ([] ++ S ++ extras (formatAttr as) desc))) = false →
         hasSub zwEntity (stars (n + 1) ++ ((pad ++ short) ++ ([] ++ S ++ extras (formatAttr as) desc))) = false →
         readEntry (stars (n + 1) ++ ((pad ++ short) ++ ([] ++ S ++ extras (formatAttr as) desc))) =
-          .ok (short, as, desc.map strip) := by
+          .ok (short, as, normDesc desc) := by
       intro pad S hpad hpne hS he' hz'
       obtain ⟨f1, f2, f3, f4, f5⟩ := pad_facts pad short hpad hn
       apply row_read (stars (n + 1)) (pad ++ short) [] S short as desc _ f1 f2 f3 f4 hsne (Or.inl rfl) hS hpre f5
@@ -1329,10 +1367,9 @@ theorem line_roundtrip_full (l : Nat) (short : Str) (as : Attrs) (desc : Option 
           simpa using this
 
 
-theorem map_strip_of_trimmed (desc : Option Str) (ht : descTrimmed desc = true) : desc.map strip = desc := by
-  cases desc with
-  | none => rfl
-  | some d => simp [strip_trimmed (by simpa [descTrimmed] using ht)]
+theorem normDesc_of_trimmed (desc : Option Str) (hd : descWF desc = true) (ht : descTrimmed desc = true) :
+    normDesc desc = desc :=
+  normDesc_of_normal desc (descNormal_of desc hd ht)
 
 theorem line_roundtrip_core (l : Nat) (short : Str) (as : Attrs) (desc : Option Str)
     (h : lineWF l short as desc = true) (ht : descTrimmed desc = true) :
@@ -1342,7 +1379,7 @@ theorem line_roundtrip_core (l : Nat) (short : Str) (as : Attrs) (desc : Option 
       quote3.isPrefixOf (rowBody l short (extras (formatAttr as) desc)) = (l == 0) ∧
       (0 < l → tagLevel (rowBody l short (extras (formatAttr as) desc)) = some l) := by
   have := line_roundtrip_full l short as desc h
-  rw [map_strip_of_trimmed desc ht] at this
+  rw [normDesc_of_trimmed desc (lineWF_spec h).2.2.2.1 ht] at this
   exact this
 
 /-- `line_roundtrip_partial` in the form used by the tag-section proof (stated here because the section lemmas
@@ -1522,7 +1559,7 @@ theorem ofWikiFrom_step_full (rest : List Str) (prev : List Str) (e : Entry) (hw
     ofWikiFrom (tagLine (level e.name) (shortName e.name) (entryExtras e) :: rest) prev =
       match ofWikiFrom rest (splitOn '/' e.name) with
       | .error x => .error x
-      | .ok es => .ok (stripDesc e :: es) := by
+      | .ok es => .ok (normEntry e :: es) := by
   have hl := entryWF_spec hwf
   have hlevel : level e.name = (splitOn '/' e.name).length - 1 := by
     simp [level, splitOn_length]
@@ -1530,7 +1567,7 @@ theorem ofWikiFrom_step_full (rest : List Str) (prev : List Str) (e : Entry) (hw
   obtain ⟨hsne, _, _⟩ := nameWF_spec hn
   have hsemp : (shortName e.name).isEmpty = false := by simpa using hsne
   have hrebuild := rebuild_name e.name
-  have hmk : (⟨e.name, e.attrs, e.desc.map strip⟩ : Entry) = stripDesc e := rfl
+  have hmk : (⟨e.name, e.attrs, normDesc e.desc⟩ : Entry) = normEntry e := rfl
   unfold entryExtras
   obtain ⟨c1, c2, c3, c4⟩ := line_roundtrip_full (level e.name) (shortName e.name) e.attrs e.desc hl
   rw [ofWikiFrom]
@@ -1565,7 +1602,7 @@ theorem ofWikiFrom_step_full (rest : List Str) (prev : List Str) (e : Entry) (hw
 
 theorem ofWikiFrom_toWiki_full (ts : List Entry) (prev : List Str)
     (hwf : ∀ e ∈ ts, entryWF e = true) (hp : Preorder prev ts = true) :
-    ofWikiFrom (toWiki ts) prev = .ok (ts.map stripDesc) := by
+    ofWikiFrom (toWiki ts) prev = .ok (ts.map normEntry) := by
   induction ts generalizing prev with
   | nil => simp [toWiki, toWikiLeveled, ofWikiFrom]
   | cons e r ih =>
@@ -1586,7 +1623,7 @@ theorem ofWikiFrom_toWiki_full (ts : List Entry) (prev : List Str)
     · simp only [hz, Bool.false_eq_true, ↓reduceIte, List.nil_append]
       exact hstep
 
-/-! ### what the readers can return: descriptions are always trimmed -/
+/-! ### what the readers can return: descriptions are always absent or non-empty and trimmed -/
 
 theorem lstrip_head (s : Str) : ∀ c, (lstrip s).head? = some c → isPySpace c = false := by
   induction s with
@@ -1643,9 +1680,29 @@ theorem strip_is_trimmed (s : Str) : trimmed (strip s) = true := by
     | none => simp [h1 c hh]
     | some d => simp [h1 c hh, h2 d hl]
 
-theorem readEntry_desc_trimmed (row name : Str) (as : Attrs) (desc : Option Str)
-    (h : readEntry row = .ok (name, as, desc)) : descTrimmed desc = true := by
-  unfold readEntry at h
+theorem readDesc_normal (d : Str) : descNormal (readDesc d) = true := by
+  unfold readDesc
+  split
+  · rfl
+  · rename_i hne
+    simp only [descNormal, Bool.and_eq_true, Bool.not_eq_true']
+    exact ⟨by simpa using hne, strip_is_trimmed _⟩
+
+theorem normDesc_normal (desc : Option Str) : descNormal (normDesc desc) = true := by
+  cases desc with
+  | none => rfl
+  | some d => exact readDesc_normal d
+
+/-- `normDesc` fixes a description exactly when it is absent or non-empty and trimmed -/
+theorem normDesc_fixed_iff (desc : Option Str) : normDesc desc = desc ↔ descNormal desc = true :=
+  ⟨fun h => by rw [← h]; exact normDesc_normal desc, normDesc_of_normal desc⟩
+
+theorem normDesc_idem (desc : Option Str) : normDesc (normDesc desc) = normDesc desc :=
+  normDesc_of_normal _ (normDesc_normal desc)
+
+theorem readEntry_desc_normal (row name : Str) (as : Attrs) (desc : Option Str)
+    (h : readEntry row = .ok (name, as, desc)) : descNormal desc = true := by
+  unfold readEntry readEntryWith at h
   split at h
   · simp at h
   · split at h
@@ -1658,12 +1715,10 @@ theorem readEntry_desc_trimmed (row name : Str) (as : Attrs) (desc : Option Str)
         · simp only [Except.ok.injEq, Prod.mk.injEq] at h
           obtain ⟨_, _, hd⟩ := h
           subst hd
-          split
-          · rfl
-          · exact strip_is_trimmed _
+          exact readDesc_normal _
 
-theorem ofWikiFrom_desc_trimmed (lines : List Str) (parents : List Str) (es : List Entry)
-    (h : ofWikiFrom lines parents = .ok es) : ∀ e ∈ es, descTrimmed e.desc = true := by
+theorem ofWikiFrom_desc_normal (lines : List Str) (parents : List Str) (es : List Entry)
+    (h : ofWikiFrom lines parents = .ok es) : ∀ e ∈ es, descNormal e.desc = true := by
   fun_induction ofWikiFrom lines parents generalizing es
   all_goals first
     | (simp at h; subst h; simp; done)
@@ -1675,11 +1730,11 @@ theorem ofWikiFrom_desc_trimmed (lines : List Str) (parents : List Str) (es : Li
        intro e he
        simp only [List.mem_cons] at he
        rcases he with rfl | he
-       · exact readEntry_desc_trimmed _ _ _ _ (by assumption)
+       · exact readEntry_desc_normal _ _ _ _ (by assumption)
        · exact ih _ (by assumption) e he)
 
-theorem ofTsvFrom_desc_trimmed (rows : List TsvRow) (known : List (Str × List Str)) (es : List Entry)
-    (h : ofTsvFrom rows known = .ok es) : ∀ e ∈ es, descTrimmed e.desc = true := by
+theorem ofTsvFrom_desc_normal (rows : List TsvRow) (known : List (Str × List Str)) (es : List Entry)
+    (h : ofTsvFrom rows known = .ok es) : ∀ e ∈ es, descNormal e.desc = true := by
   fun_induction ofTsvFrom rows known generalizing es
   case case8 r rest known tagName _ parents long attrs0 _ attrs desc _ _ es' hrec ih =>
     simp only [Except.ok.injEq] at h
@@ -1687,46 +1742,38 @@ theorem ofTsvFrom_desc_trimmed (rows : List TsvRow) (known : List (Str × List S
     intro e he
     simp only [List.mem_cons] at he
     rcases he with rfl | he
-    · simp only [descTrimmed, desc]
-      split
-      · rfl
-      · rename_i d hd
-        split at hd
-        · simp at hd
-        · simp at hd; subst hd; exact strip_is_trimmed _
+    · exact readDesc_normal _
     · exact ih es' hrec e he
   all_goals simp at h
   all_goals (subst h; simp)
 
-theorem readXmlDesc_trimmed (d : Option Str) : descTrimmed (readXmlDesc d) = true := by
-  cases d with
-  | none => rfl
-  | some x =>
-    simp only [readXmlDesc]
-    split
-    · rfl
-    · exact strip_is_trimmed _
+/-- the XML reader's description rule (fix a64eb53) is the same function as the text readers' (fix 391436a) -/
+theorem readXmlDesc_eq_normDesc (d : Option Str) : readXmlDesc d = normDesc d := by
+  cases d <;> rfl
+
+theorem readXmlDesc_normal (d : Option Str) : descNormal (readXmlDesc d) = true := by
+  rw [readXmlDesc_eq_normDesc]; exact normDesc_normal d
 
 mutual
-theorem readNode_desc_trimmed (parents : List Str) (x : XNode) :
-    ∀ e ∈ readNode parents x, descTrimmed e.desc = true := by
+theorem readNode_desc_normal (parents : List Str) (x : XNode) :
+    ∀ e ∈ readNode parents x, descNormal e.desc = true := by
   cases x with
   | node n d as ch =>
     intro e he
     simp only [readNode, List.mem_cons] at he
     rcases he with rfl | he
-    · exact readXmlDesc_trimmed d
-    · exact readForest_desc_trimmed (parents ++ [n]) ch e he
-theorem readForest_desc_trimmed (parents : List Str) (F : List XNode) :
-    ∀ e ∈ readForest parents F, descTrimmed e.desc = true := by
+    · exact readXmlDesc_normal d
+    · exact readForest_desc_normal (parents ++ [n]) ch e he
+theorem readForest_desc_normal (parents : List Str) (F : List XNode) :
+    ∀ e ∈ readForest parents F, descNormal e.desc = true := by
   cases F with
   | nil => intro e he; simp [readForest] at he
   | cons x xs =>
     intro e he
     simp only [readForest, List.mem_append] at he
     rcases he with he | he
-    · exact readNode_desc_trimmed parents x e he
-    · exact readForest_desc_trimmed parents xs e he
+    · exact readNode_desc_normal parents x e he
+    · exact readForest_desc_normal parents xs e he
 end
 
 /-! ### the other MediaWiki sections -/
@@ -2030,7 +2077,7 @@ theorem tsv_attrs (lv : Nat) (e : Entry) (h : tsvWF e = true) :
       simpa using this
 
 theorem tsv_desc (lv : Nat) (e : Entry) (h : tsvWF e = true) :
-    (if (tsvRow lv e).desc.isEmpty then none else some (strip (tsvRow lv e).desc)) = e.desc := by
+    readDesc (tsvRow lv e).desc = e.desc := by
   obtain ⟨_, _, _, hd, _, _⟩ := tsvWF_spec h
   have : (tsvRow lv e).desc = e.desc.getD [] := rfl
   rw [this]
@@ -2038,8 +2085,7 @@ theorem tsv_desc (lv : Nat) (e : Entry) (h : tsvWF e = true) :
   | none => simp
   | some d =>
     obtain ⟨hne, htr⟩ := hd d hdesc
-    have : d.isEmpty = false := by simpa using hne
-    simp [this, strip_trimmed htr]
+    simpa using readDesc_of_trimmed hne htr
 
 theorem ofTsvFrom_toTsvRows (leveled : List (Nat × Entry)) (known : List (Str × List Str))
     (hwf : ∀ p ∈ leveled, tsvWF p.2 = true) (hr : TsvResolvable known (leveled.map (·.2)) = true) :
@@ -2376,9 +2422,9 @@ theorem escape_unescape (s : Str) (h : hasSub ['\\', 'n'] s = false) : unescapeN
             rw [unescape_bs d _ hd, ih']
       · simp [escapeNl, hc, unescape_cons c _ hb, ih']
 
-theorem stripDesc_of_trimmed (e : Entry) (h : descTrimmed e.desc = true) : stripDesc e = e := by
-  unfold stripDesc
-  rw [map_strip_of_trimmed e.desc h]
+theorem normEntry_of_normal (e : Entry) (h : descNormal e.desc = true) : normEntry e = e := by
+  unfold normEntry
+  rw [normDesc_of_normal e.desc h]
 
 /-! ### the three documents of one save -/
 
@@ -2856,7 +2902,7 @@ theorem line_roundtrip_partial (l : Nat) (short : Str) (as : Attrs) (desc : Opti
 
 /-- **#20, on the model.**  An entry that satisfies every clause of `lineWF` but whose description starts with a
 blank: the written line is accepted by the reader, which returns the description *without* the blank
-(`description.strip()` in `_create_entry`; the TSV reader does the same), while the XML format keeps it. -/
+(`description.strip()` in `_create_entry`; the TSV reader does the same, and since fix a64eb53 the XML reader too). -/
 theorem line_counterexample :
     lineWF 1 ['A'] [] (some [' ', 'x']) = true ∧
     (cleanLine (tagLine 1 ['A'] (extras (formatAttr []) (some [' ', 'x'])))).toOption =
@@ -3016,9 +3062,32 @@ theorem loaded_descriptions_trimmed :
     (∀ lines es, ofWiki lines = .ok es → ∀ e ∈ es, descTrimmed e.desc = true) ∧
     (∀ rows es, ofTsvRows rows = .ok es → ∀ e ∈ es, descTrimmed e.desc = true) ∧
     (∀ F, ∀ e ∈ ofXmlTree F, descTrimmed e.desc = true) :=
-  ⟨fun lines es h => ofWikiFrom_desc_trimmed lines [] es h,
-   fun rows es h => ofTsvFrom_desc_trimmed rows _ es h,
-   fun F => readForest_desc_trimmed [] F⟩
+  ⟨fun lines es h e he => descTrimmed_of_normal _ (ofWikiFrom_desc_normal lines [] es h e he),
+   fun rows es h e he => descTrimmed_of_normal _ (ofTsvFrom_desc_normal rows _ es h e he),
+   fun F e he => descTrimmed_of_normal _ (readForest_desc_normal [] F e he)⟩
+
+/-- **Every description a reader returns is absent, or non-empty and trimmed** (`descNormal`; since fix 391436a
+also for the MediaWiki and TSV readers, which used to turn a blank `[ ]` / blank cell into the empty string —
+`blank_description_counterexample`).  Whatever lines, rows or element tree they are given, none of the three tag
+readers produces an empty or untrimmed description.  `descNormal` descriptions are exactly the fixed points of
+`normDesc` (`normDesc_fixed`), so for loaded schemas the full-strength theorems `line_roundtrip` and
+`wiki_tags_roundtrip` are identities in the description. -/
+theorem loaded_descriptions_normal :
+    (∀ lines es, ofWiki lines = .ok es → ∀ e ∈ es, descNormal e.desc = true) ∧
+    (∀ rows es, ofTsvRows rows = .ok es → ∀ e ∈ es, descNormal e.desc = true) ∧
+    (∀ F, ∀ e ∈ ofXmlTree F, descNormal e.desc = true) :=
+  ⟨fun lines es h => ofWikiFrom_desc_normal lines [] es h,
+   fun rows es h => ofTsvFrom_desc_normal rows _ es h,
+   fun F => readForest_desc_normal [] F⟩
+
+/-- what every reader does to a description (`normDesc`: blank = absent, otherwise stripped) is the identity
+exactly on the absent and on the non-empty trimmed descriptions, and applying it twice changes nothing more -/
+theorem normDesc_fixed (desc : Option Str) :
+    (normDesc desc = desc ↔ descNormal desc = true) ∧ normDesc (normDesc desc) = normDesc desc :=
+  ⟨normDesc_fixed_iff desc, normDesc_idem desc⟩
+
+example : normDesc (some [' ', 'x', ' ']) = some ['x'] ∧ normDesc (some [' ', '\t']) = none ∧
+    normDesc (some []) = none ∧ normDesc (some ['x', ' ', 'y']) = some ['x', ' ', 'y'] := by decide
 
 /-! ### the other MediaWiki sections -/
 
@@ -3212,8 +3281,10 @@ theorem wiki_order_counterexample :
 
 /-- **Wiki lines, full strength.**  For *every* level, name, attributes and description satisfying `lineWF` — no
 assumption on blanks — the written line is accepted and `_create_entry` returns the name, the attributes and the
-description **stripped**.  So the line round trip is the identity exactly on trimmed descriptions
-(`line_roundtrip_partial`), which is all a loaded schema can contain (`loaded_descriptions_trimmed`).
+description **normalised** (`normDesc`: a blank description comes back as *no description* — fix 391436a; before
+it came back as the empty string, `blank_description_counterexample` — and any other one stripped).  So the line
+round trip is the identity exactly on descriptions that are absent or non-empty and trimmed (`normDesc_fixed`,
+`line_roundtrip_partial`), which is all a loaded schema can contain (`loaded_descriptions_normal`).
 What `lineWF` still excludes, and why:
 * `{ } [ ]` in names, values, descriptions — the compliance character check rejects them (malformed stream);
 * `<` and the quote character in names and `<`, `,`, `=`, newline in attribute values — outside the name / value classes;
@@ -3225,22 +3296,48 @@ theorem line_roundtrip (l : Nat) (short : Str) (as : Attrs) (desc : Option Str)
     (h : lineWF l short as desc = true) :
     cleanLine (tagLine l short (extras (formatAttr as) desc)) =
         .ok (some (rowBody l short (extras (formatAttr as) desc))) ∧
-      readEntry (rowBody l short (extras (formatAttr as) desc)) = .ok (short, as, desc.map strip) ∧
+      readEntry (rowBody l short (extras (formatAttr as) desc)) = .ok (short, as, normDesc desc) ∧
       quote3.isPrefixOf (rowBody l short (extras (formatAttr as) desc)) = (l == 0) ∧
       (0 < l → tagLevel (rowBody l short (extras (formatAttr as) desc)) = some l) :=
   line_roundtrip_full l short as desc h
 
 /-- **Tag sections, full strength.**  For every preorder listing of `entryWF` entries — descriptions with or
-without edge blanks — reading what `_output_tags` writes gives every entry back with its description stripped
-(`stripDesc`); on trimmed descriptions `stripDesc` is the identity (`stripDesc_trimmed`).  `Preorder` cannot be
+without edge blanks, blank or not — reading what `_output_tags` writes gives every entry back with its description
+normalised (`normEntry` = `normDesc` on the description: blank ↦ none, otherwise stripped); on absent and on
+non-empty trimmed descriptions `normEntry` is the identity (`normEntry_normal`).  `Preorder` cannot be
 dropped (`wiki_order_counterexample`); it holds for every loaded schema (`treeOrder_is_preorder` for the groups the
 loader keeps in tree order, checked on every schema by the harness). -/
 theorem wiki_tags_roundtrip (ts : List Entry) (hwf : ∀ e ∈ ts, entryWF e = true) (hp : Preorder [] ts = true) :
-    ofWiki (toWiki ts) = .ok (ts.map stripDesc) :=
+    ofWiki (toWiki ts) = .ok (ts.map normEntry) :=
   ofWikiFrom_toWiki_full ts [] hwf hp
 
-theorem stripDesc_trimmed (e : Entry) (h : descTrimmed e.desc = true) : stripDesc e = e :=
-  stripDesc_of_trimmed e h
+theorem normEntry_normal (e : Entry) (h : descNormal e.desc = true) : normEntry e = e :=
+  normEntry_of_normal e h
+
+/-- a forest with an edge-blank and a blank description: in the input language, and read back normalised -/
+example :
+    let ts : List Entry :=
+      [⟨['E'], [], some [' ', 'd', ' ']⟩, ⟨['E', '/', 'F'], [(['x'], [])], some [' ', ' ']⟩, ⟨['G'], [], some ['\t']⟩]
+    (ts.all entryWF) = true ∧ Preorder [] ts = true ∧
+      (ofWiki (toWiki ts)).toOption =
+        some [⟨['E'], [], some ['d']⟩, ⟨['E', '/', 'F'], [(['x'], [])], none⟩, ⟨['G'], [], none⟩] := by decide
+
+/-- **Defect C05-blank-description-empty-string (fixed by 391436a), on the legacy model.**  The reader as it was
+(`if node_desc:` / `if description:` followed by `.strip()`) turns the blank description of `* A [ ]` into the
+empty string `''`; the fixed reader gives *no description*.  No writer emits `''`: the MediaWiki line written for
+the entry with description `''` is the line written for the entry without description, and the TSV cell is the
+empty cell in both cases, so the legacy load of a blank description never survived a save and reload. -/
+theorem blank_description_counterexample :
+    (readEntryLegacy ['*', ' ', 'A', ' ', '[', ' ', ']']).toOption =
+      some ((['A'], [], some []) : Str × Attrs × Option Str) ∧
+    (readEntry ['*', ' ', 'A', ' ', '[', ' ', ']']).toOption = some ((['A'], [], none) : Str × Attrs × Option Str) ∧
+    readDescLegacy [' '] = some [] ∧ readDesc [' '] = none ∧
+    tagLine 1 ['A'] (extras (formatAttr []) (some [])) = tagLine 1 ['A'] (extras (formatAttr []) none) ∧
+    (tsvRow 1 ⟨['A'], [], some []⟩).desc = (tsvRow 1 ⟨['A'], [], none⟩).desc ∧
+    ((cleanLine (tagLine 1 ['A'] (extras (formatAttr []) (some [])))).toOption.bind
+      fun r => r.bind fun row => (readEntryLegacy row).toOption) =
+      some ((['A'], [], none) : Str × Attrs × Option Str) :=
+  ⟨by decide, by decide, by decide, by decide, by decide, by decide, by decide⟩
 
 /-- **Struct-sheet escape, full strength.**  A prologue / epilogue text survives the TSV newline escaping iff-side
 that matters: whenever it does not contain a backslash directly followed by `n`; `escape_counterexample` shows the
